@@ -455,7 +455,15 @@ func Check(t *testing.T, id string, prop func(c *C)) {
 		r.res.Done = true
 		return
 	}
+	var firstFail *CaseFile
 	defer func() {
+		if r.lastFail == nil && firstFail != nil && t.Failed() {
+			// the failure did not recur when rapid re-ran the same draws (the code under test depends on
+			// something outside the draws, e.g. map iteration order or goroutine scheduling): the violation
+			// observed is reported with the draws recorded when it occurred
+			r.lastFail = firstFail
+			r.lastFail.Msg += " [observed once; the same draws did not fail again in this process: schedule- or iteration-order-dependent]"
+		}
 		if r.lastFail != nil && t.Failed() {
 			v := &Violation{Key: r.lastFail.Key, Msg: r.lastFail.Msg, Test: r.test}
 			r.saveViolation(v, r.lastFail)
@@ -466,6 +474,9 @@ func Check(t *testing.T, id string, prop func(c *C)) {
 		r.lastFail = nil
 		_, v := r.exec(func(c *C) Src { return &rapidSrc{c: c, t: rt} }, prop, false, true)
 		if v != nil {
+			if firstFail == nil {
+				firstFail = r.lastFail
+			}
 			rt.Fatalf("VIOLATION key=%s %s", v.Key, v.Msg)
 		}
 	})
